@@ -762,6 +762,9 @@ def call(f, *args, **kw):
             return f(*args, **kw)
         sym = _anysym(args, kw)
         if isinstance(recv, str):
+            if name == "join" and len(args) == 1 and not isinstance(args[0], (str, list, tuple)):
+                args = (list(args[0]),)      # a generator may yield symbolic strings
+                sym = _anysym(args, kw)
             if sym:
                 return _native_str_method(recv, name, args, kw)
             return f(*args, **kw)
